@@ -78,7 +78,9 @@ impl vstd::std_specs::convert::FromSpecImpl<u64> for BigNum {
 impl From<u64> for BigNum { #[verifier::external_body] fn from(x: u64) -> (r: BigNum) { unimplemented!() } }
 
 // ---- proposals: a voting proposal as far as the proposal builder looks at it - whether its governance action carries a policy (guardrails script) hash
-#[verifier::external_body] pub struct VotingProposal { _p: core::marker::PhantomData<u8> }
+opaque_types!(VotingProposalRest);
+/// a voting proposal as far as the proposal builder looks at it: its deposit, and whether its governance action carries a policy hash
+pub struct VotingProposal { pub deposit: Coin, pub rest: VotingProposalRest }
 impl Clone for VotingProposal { #[verifier::external_body] fn clone(&self) -> (r: Self) ensures r == *self { unimplemented!() } }
 impl VotingProposal {
     pub uninterp spec fn scripted(&self) -> bool;
